@@ -11,6 +11,32 @@ import warnings
 from harness import core
 
 
+def _watchdog(pid, seconds):
+    """A check that does not come to an end is a broken correspondence, not a reason to hang whoever runs it: a changed
+    implementation can make a harness loop spin (a `read` that returns instead of raising, a callback that re-arms itself
+    for ever).  The budgets are about 30 times what the tiers take on the unchanged tree (quick: 2-40 s, thorough: < 3 min
+    per property, plus a cold Lean build); when one is exceeded the run is reported as a violation without a failing input,
+    with the stack of every thread in the replay file."""
+    import threading
+    import traceback
+
+    def fire():
+        frames = {str(t): traceback.format_stack(f) for t, f in sys._current_frames().items()}
+        path = os.path.join(core.VERIF, "replays", f"{pid}_watchdog.json")
+        try:
+            os.makedirs(os.path.dirname(path), exist_ok=True)
+            json.dump({"property": pid, "no_longer_checks": [f"correspondence: the check did not terminate within {seconds} s on the "
+                       "current tree (a harness case does not come to an end)"], "stacks": frames}, open(path, "w"), indent=1)
+        except Exception:  # noqa: BLE001
+            pass
+        print(f"VIOLATION property={pid} replay={path} no-failing-input-found", flush=True)
+        os._exit(1)
+
+    t = threading.Timer(seconds, fire)
+    t.daemon = True
+    t.start()
+
+
 def main():
     ap = argparse.ArgumentParser()
     ap.add_argument("pid")
@@ -26,6 +52,7 @@ def main():
     except ModuleNotFoundError as exc:
         print(f"no check for {pid}: {exc}", file=sys.stderr)
         return 2
+    _watchdog(pid, int(os.environ.get("VERIF_WATCHDOG_S") or (1200 if a.tier == "quick" else 5400)))
     try:
         if a.replay:
             data = json.load(open(a.replay))
